@@ -413,8 +413,13 @@ func runTopology(c *Ctx, ti int, r *mon.RNG) {
 				g.permitted = []string{"other.org", "sub.example.com"}
 			}
 		}
-		if bad(14) {
+		switch {
+		case bad(14):
 			g.eku = []gx509.ExtKeyUsage{gx509.ExtKeyUsageClientAuth}
+		case r.Intn(5) == 0:
+			g.eku = []gx509.ExtKeyUsage{gx509.ExtKeyUsageAny} // permissive issuer: must not shadow the leaf's own EKU
+		case r.Intn(8) == 0:
+			g.eku = []gx509.ExtKeyUsage{gx509.ExtKeyUsageServerAuth, gx509.ExtKeyUsageClientAuth}
 		}
 		return g
 	}
